@@ -216,10 +216,19 @@ def few_block_graphs(run, rng, n):
         if not isint and rng.random() < 0.4:
             vals[rng.randrange(m)] = np.nan
         chunks = rng.choice([(m,), (m // 2, m - m // 2), tuple(G.random_composition(rng, m, 4))])
-        func = rng.choice(["argmax", "argmin", "nanargmax", "nanargmin", "nanfirst", "nanlast", "first", "last", "sum", "nanmax", "count"])
+        func = rng.choice(["argmax", "argmin", "nanargmax", "nanargmin", "nanfirst", "nanlast", "first", "last", "sum", "nanmax", "count", "var", "std", "nanvar", "mean"])
         method = rng.choice(["map-reduce", "cohorts", None])
-        bydask = func in ("sum", "nanmax", "count") or rng.random() < 0.2
+        if func in ("var", "std", "nanvar", "mean") and rng.random() < 0.7:
+            # blockwise kernels on whole (writeable) blocks: labels sorted, chunk boundaries on group boundaries
+            labels = np.sort(labels)
+            cuts = [i for i in range(1, m) if labels[i] != labels[i - 1]]
+            pts = [0] + sorted(rng.sample(cuts, k=rng.randint(0, len(cuts)))) + [m]
+            chunks = tuple(b - a for a, b in zip(pts, pts[1:]))
+            method = "blockwise"
+        bydask = method != "blockwise" and (func in ("sum", "nanmax", "count") or rng.random() < 0.2)
         kw = {"min_count": rng.choice([1, 2, 3]), "fill_value": rng.choice([-1, -1.0])}
+        if method == "blockwise":
+            kw["engine"] = rng.choice(["numpy", "flox", "numba"])
         desc = {"kind": "few-blocks", "func": func, "method": method, "vals": [I.fnum(x) for x in vals], "labels": labels.tolist(), "chunks": list(chunks),
                 "dtype": str(vals.dtype), "labels_in_dask": bydask, "min_count": kw["min_count"], "fill": repr(kw["fill_value"])}
         try:
